@@ -81,6 +81,140 @@ def dof_counts(ctx):
     r.check(ok2, "FunctionSpace grid dof count", SP, "FunctionSpace.__init__", hits[0][0].lineno if hits else cls.lineno, "grid dof count", "the grid dof count is `%s`, expected 1 + max(local2global)" % (hits[0][1] if hits else None))
 
 
+ROWS = [(1, 1, 1), (1, -1, 0), (0, 1, -1), (-1, 0, 1), (1, 0, 0), (0, 0, -1), (1, 1, 0), (-1, -1, -1), (1, -1, -1), (0, 0, 0), (2, -1, -1)]
+
+
+def _row_value(e, M, E, row, env):
+    """Value of an expression over the multiplier table M for the element E whose row of multipliers is `row`
+    (finite-domain evaluation by the checker: sums / any / all / counts along the row, comparisons, boolean operators).
+    Names bound before the loop to such expressions are looked up in env (name -> defining expression)."""
+    import operator
+
+    class _N:  # the few NumPy reductions / maps the evaluation needs, on plain lists (the checker depends on the standard library only)
+        @staticmethod
+        def array(v):
+            return list(v)
+
+        @staticmethod
+        def _map(f, a, b=None):
+            if b is None:
+                return [f(x) for x in a] if isinstance(a, list) else f(a)
+            if isinstance(a, list) and isinstance(b, list):
+                return [f(x, y) for x, y in zip(a, b)]
+            if isinstance(a, list):
+                return [f(x, b) for x in a]
+            if isinstance(b, list):
+                return [f(a, y) for y in b]
+            return f(a, b)
+
+        logical_not = staticmethod(lambda a: _N._map(lambda x: not x, a))
+        abs = staticmethod(lambda a: _N._map(abs, a))
+        sign = staticmethod(lambda a: _N._map(lambda x: (x > 0) - (x < 0), a))
+        square = staticmethod(lambda a: _N._map(lambda x: x * x, a))
+        sum = staticmethod(lambda a: sum(a) if isinstance(a, list) else a)
+        any = staticmethod(lambda a: any(a) if isinstance(a, list) else bool(a))
+        all = staticmethod(lambda a: all(a) if isinstance(a, list) else bool(a))
+        max = staticmethod(lambda a: max(a) if isinstance(a, list) else a)
+        min = staticmethod(lambda a: min(a) if isinstance(a, list) else a)
+        count_nonzero = staticmethod(lambda a: sum(1 for x in a if x) if isinstance(a, list) else int(bool(a)))
+
+        @staticmethod
+        def prod(a):
+            p = 1
+            for x in (a if isinstance(a, list) else [a]):
+                p *= x
+            return p
+
+    _n = _N
+    _cmp = {ast.Eq: operator.eq, ast.NotEq: operator.ne, ast.Gt: operator.gt, ast.Lt: operator.lt, ast.GtE: operator.ge, ast.LtE: operator.le}
+    _bin = {ast.Mult: operator.mul, ast.Add: operator.add, ast.Sub: operator.sub, ast.Pow: operator.pow}
+
+    def arr(x):
+        """row-valued sub-expression: M[E], M[E, :], M (whole table, reduced along axis 1), abs / comparisons of those"""
+        if isinstance(x, ast.Name) and x.id == M:
+            return _n.array(row)
+        if isinstance(x, ast.Name) and x.id in env:
+            return arr(env[x.id])
+        if isinstance(x, ast.Subscript) and isinstance(x.value, ast.Name) and x.value.id == M:
+            s = unparse(x.slice).replace(" ", "")
+            if s in (E, "%s,:" % E, "(%s,slice(None,None,None))" % E):
+                return _n.array(row)
+            raise AnalysisError("invert_local2global: multiplier table indexed by `%s`" % s)
+        if isinstance(x, ast.Compare) and len(x.ops) == 1:
+            return _N._map(_cmp[type(x.ops[0])], arr(x.left), arr(x.comparators[0]))
+        if isinstance(x, ast.Constant):
+            return x.value
+        if isinstance(x, ast.UnaryOp) and isinstance(x.op, ast.Not):
+            return _n.logical_not(arr(x.operand))
+        if isinstance(x, ast.UnaryOp) and isinstance(x.op, ast.USub):
+            return _N._map(operator.neg, arr(x.operand))
+        if isinstance(x, ast.BoolOp):
+            vals = [bool(arr(v)) for v in x.values]
+            return all(vals) if isinstance(x.op, ast.And) else any(vals)
+        if isinstance(x, ast.BinOp) and type(x.op) in _bin:
+            return _N._map(_bin[type(x.op)], arr(x.left), arr(x.right))
+        if isinstance(x, ast.Subscript) and isinstance(x.slice, ast.Name) and x.slice.id == E:
+            return arr(x.value)  # a per-element vector computed before the loop, read at this element
+        if isinstance(x, ast.Call):
+            f = unparse(x.func).split(".")[-1]
+            recv = x.func.value if isinstance(x.func, ast.Attribute) and not (isinstance(x.func.value, ast.Name) and x.func.value.id in ("_np", "np", "numpy")) else None
+            args = ([recv] if recv is not None else []) + list(x.args)
+            if f in ("sum", "any", "all", "max", "min", "count_nonzero", "prod") and args:
+                return getattr(_n, f)(arr(args[0]))
+            if f in ("abs", "absolute", "fabs", "sign", "square") and len(args) == 1:
+                return getattr(_n, "abs" if f in ("absolute", "fabs") else f)(arr(args[0]))
+            if f == "len" and len(args) == 1:
+                return len(arr(args[0]))
+        raise AnalysisError("invert_local2global: expression outside the row subset: %s" % unparse(x)[:60])
+
+    return arr(e)
+
+
+def inverse_dof_map(ctx):
+    """C09 / C16: global2local lists (element, local index) for EVERY slot whose multiplier is non-zero - the colouring
+    and the dual-space builders read the neighbours of a dof from it."""
+    r = ctx.rule("INVERT-L2G", "invert_local2global enters (element, local index) under dof local2global[element, local index] exactly when that slot's multiplier is non-zero, for every element (rows with mixed signs and zeros included)", len(ROWS))
+    fn = ctx.repo.mod(SP).fn("invert_local2global")
+    L, M = arg_names(fn)[:2]
+    loops = [s for s in fn.body if isinstance(s, ast.For) and any(isinstance(c, ast.Call) and isinstance(c.func, ast.Attribute) and c.func.attr == "append" for c in ast.walk(s))]
+    if len(loops) != 1 or not isinstance(loops[0].target, ast.Name):
+        raise AnalysisError("invert_local2global: the loop over the elements that fills the lists was not found")
+    lp = loops[0]
+    E = lp.target.id
+    pre = {s.targets[0].id: s.value for s in fn.body if isinstance(s, ast.Assign) and isinstance(s.targets[0], ast.Name) and s.lineno < lp.lineno}
+    full = unparse(lp.iter).replace(" ", "") in ("range(%s)" % n for n, v in pre.items() if unparse(v).replace(" ", "") in ("len(%s)" % L, "%s.shape[0]" % L)) or unparse(lp.iter).replace(" ", "") in ("range(len(%s))" % L, "range(%s.shape[0])" % L)
+    inner = [s for s in lp.body if isinstance(s, ast.For)]
+    if len(inner) != 1 or not (isinstance(inner[0].target, ast.Tuple) and len(inner[0].target.elts) == 2 and all(isinstance(t, ast.Name) for t in inner[0].target.elts)) \
+            or unparse(inner[0].iter).replace(" ", "") != "enumerate(%s[%s])" % (L, E):
+        raise AnalysisError("invert_local2global: inner loop is not `for local_index, dof in enumerate(local2global_map[element])`")
+    K, D = (t.id for t in inner[0].target.elts)
+    for row in ROWS:
+        entered, skipped = [], False
+        # statements of the element loop before the inner loop: guards that may skip the element
+        for st in lp.body:
+            if st is inner[0]:
+                break
+            if isinstance(st, ast.If) and any(isinstance(x, ast.Continue) for x in st.body) and not st.orelse:
+                if bool(_row_value(st.test, M, E, row, pre)):
+                    skipped = True
+            elif isinstance(st, ast.Assign) and isinstance(st.targets[0], ast.Name):
+                pre = dict(pre, **{st.targets[0].id: st.value})
+            else:
+                raise AnalysisError("invert_local2global: statement before the slot loop is not modelled: %s" % unparse(st)[:60])
+        if not skipped:
+            for k in range(3):
+                env = {"%s[%s, %s]" % (M, E, K): row[k], "%s[%s][%s]" % (M, E, K): row[k]}
+                effs = dispatch.effects(inner[0].body, env, "invert_local2global")
+                calls = [e[1].replace(" ", "") for e in effs if e[0] == "call"]
+                if calls:
+                    if calls != ["global2local_map[%s].append((%s,%s))" % (D, E, K)] and not (len(calls) == 1 and calls[0].endswith("[%s].append((%s,%s))" % (D, E, K))):
+                        raise AnalysisError("invert_local2global: unexpected effect %s" % calls)
+                    entered.append(k)
+        want = [k for k in range(3) if row[k] != 0]
+        r.check(full and entered == want, "multipliers %s" % (row,), SP, fn.name, lp.lineno, "slots entered for a row of multipliers %s" % (row,),
+                "an element whose local multipliers are %s is entered for its slots %s, expected %s%s%s" % (row, entered, want, " (the element is skipped as a whole)" if skipped else "", "" if full else "; the loop does not run over all elements"))
+
+
 def sparse_grid_guard(ctx):
     """C13: a sparse operator between spaces on different grids is rejected (its element loop pairs element e with element e)."""
     r = ctx.rule("SPARSE-GRID-GUARD", "sparse assembly raises when domain and dual_to_range live on different grids and does not when they share the grid", 2)
